@@ -11,7 +11,8 @@ RULE = ("random float32 ('F') and 8-bit ('L') images, uniform images, scaled and
         "the image by random rescale / offset (fractional pixel positions); layers 0..3; integrate on/off; normalize in "
         "{None, 'average'}; interface lists with repeated interfaces. distinct = (image mode, interfaces, layers, integrate, "
         "normalize, repeated); non-trivial = at least two interfaces"
-        ' Added after the seeded rounds: repeated interfaces in the list, a second placement (rescale / offset) of the same interface objects.')
+        ' Added after the seeded rounds: repeated interfaces in the list, a second placement (rescale / offset) of the same interface objects.'
+        ' Vertices jittered in place after the frame was built.')
 MIN_DECISIVE = {"quick": 120, "thorough": 1500}
 REQUIRED_COUNTERS = ["post:get_intensities", "window:compared", "band:compared", "linearity:checked", "uniform:checked",
                      "writeback:checked", "repeated:checked"]
